@@ -221,7 +221,7 @@ Proof. vm_compute. reflexivity. Qed.
 Example O01_body_goose_Ctx_methodExpr :
   has_body func_bodies "goose.Ctx.methodExpr"
     "func(call *ast.CallExpr) coq.Expr"
-    "{ args := call.Args if ctx.info.Types[call.Fun].IsType() { if f, ok := call.Fun.(*ast.ArrayType); ok { if f.Len == nil && isIdent(f.Elt, ""byte"") { arg := args[0] if isString(ctx.typeOf(arg)) { return ctx.newCoqCall(""StringToBytes"", args) } } } if f, ok := call.Fun.(*ast.Ident); ok && f.Name == ""string"" { arg := args[0] if isString(ctx.typeOf(arg).Underlying()) { return ctx.expr(args[0]) } if !isByteSlice(ctx.typeOf(arg)) { ctx.unsupported(call, ""conversion from type %v to string"", ctx.typeOf(arg)) return coq.CallExpr{} } return ctx.newCoqCall(""StringFromBytes"", args) } return ctx.expr(args[0]) } var retExpr coq.Expr f := call.Fun switch indexF := f.(type) { case *ast.IndexExpr: f = indexF.X case *ast.IndexListExpr: f = indexF.X } switch f := f.(type) { case *ast.Ident: typeArgs := ctx.typeList(call, ctx.info.Instances[f].TypeArgs) retExpr = ctx.newCoqCallTypeArgs(ctx.identExpr(f), typeArgs, args) case *ast.SelectorExpr: retExpr = ctx.selectorMethod(f, call) case *ast.IndexExpr: ctx.nope(call, ""double explicit generic type instantiation"") case *ast.IndexListExpr: ctx.nope(call, ""double explicit generic type instantiation with multiple arguments"") default: ctx.unsupported(call, ""call to unexpected function (of type %T)"", call.Fun) } return retExpr }" = true.
+    "{ args := call.Args if ctx.info.Types[call.Fun].IsType() { if f, ok := call.Fun.(*ast.ArrayType); ok { if f.Len == nil && isIdent(f.Elt, ""byte"") { arg := args[0] if isString(ctx.typeOf(arg)) { return ctx.newCoqCall(""StringToBytes"", args) } } } if f, ok := call.Fun.(*ast.Ident); ok && f.Name == ""string"" { arg := args[0] if isString(ctx.typeOf(arg).Underlying()) { return ctx.expr(args[0]) } if !isByteSlice(ctx.typeOf(arg)) { ctx.unsupported(call, ""conversion from type %v to string"", ctx.typeOf(arg)) return coq.CallExpr{} } return ctx.newCoqCall(""StringFromBytes"", args) } return ctx.expr(args[0]) } var retExpr coq.Expr f := call.Fun switch indexF := f.(type) { case *ast.IndexExpr: f = indexF.X case *ast.IndexListExpr: f = indexF.X } switch f := f.(type) { case *ast.Ident: typeArgs := ctx.typeList(call, ctx.info.Instances[f].TypeArgs) callee := ctx.identExpr(f) if _, recursive := callee.(coq.GallinaString); recursive && len(typeArgs) > 0 { if !ctx.instantiatedAtOwnTypeParams(f) { ctx.unsupported(call, ""recursive call of a generic function at other type arguments"") } typeArgs = nil } retExpr = ctx.newCoqCallTypeArgs(callee, typeArgs, args) case *ast.SelectorExpr: retExpr = ctx.selectorMethod(f, call) case *ast.IndexExpr: ctx.nope(call, ""double explicit generic type instantiation"") case *ast.IndexListExpr: ctx.nope(call, ""double explicit generic type instantiation with multiple arguments"") default: ctx.unsupported(call, ""call to unexpected function (of type %T)"", call.Fun) } return retExpr }" = true.
 Proof. vm_compute. reflexivity. Qed.
 
 Example O01_body_goose_Ctx_identExpr :
